@@ -518,13 +518,13 @@ pub fn run(tier: Tier) -> ! {
     // same system without the router twins: used for the deepest tree level only
     let lean = RegSys { cfg: Cfg::new(&scope_observed(), false, false), letters: scope_letters() };
     let bfs_depth = tier.pick(6, 10);
-    let bfs_budget = Instant::now() + Duration::from_secs(tier.pick(12, 400));
+    let bfs_budget = Instant::now() + Duration::from_secs(crate::ctx::budget_secs(tier.pick(12, 400)));
     let b = explore::bfs(&sys, bfs_depth, tier.pick(400_000, 6_000_000), Some(bfs_budget));
     record(&ctx, &sys, &b);
     let bfs_wall = t0.elapsed().as_secs_f64() - single_wall;
     let tree_depth = tier.pick(3, 5);
     let routed_tree_depth = tier.pick(3, 4);
-    let budget = Instant::now() + Duration::from_secs(tier.pick(15, 900));
+    let budget = Instant::now() + Duration::from_secs(crate::ctx::budget_secs(tier.pick(15, 900)));
     let mut tree_hist = 0u64;
     let mut tree_complete = true;
     let mut tree_depth_done = 0;
